@@ -15,12 +15,12 @@ Require Import Model Spec Refine.
    inner let.  Hypothesis on lets (inside wf): the shadows flag is set exactly
    when the name is in the static scope. *)
 Theorem C05_scoping :
-  forall (g funs : list (list nat * expr)) (named : bool) (ignored : option nat)
+  forall (g funs : list (list nat * expr)) (ignored : option nat)
          (t : list nat) (rx : nat -> nat -> option nat),
     (forall r b, nth_error g r = Some ([], b) -> wf g ignored t rx [] b) ->
     (forall r, ignored = Some r -> exists es, nth_error g r = Some ([], Skip es)) ->
     forall n e sc E s, wf g ignored t rx sc e -> scope_of sc E -> sub E (locals s) ->
-      match peg g ignored t rx n E e (pos s), exec true g funs named ignored t rx n e s with
+      match peg g ignored t rx n E e (pos s), exec true g funs ignored t rx n e s with
       | Fuel, OutOfFuel => True
       | Raise, _ => True
       | Match v p', Done s' => status s' = true /\ result s' = v /\ pos s' = p' /\ sub E (locals s')
@@ -74,13 +74,13 @@ Definition ex_g (flag : bool) : list (list nat * expr) :=
   [([], Let 1 false (Str [97] false) (Seq [Let 1 flag (Str [98] false) (Py (PVar 1)); Py (PVar 1)]))].
 Example C05_hypotheses_satisfiable :
   (forall r b, nth_error (ex_g true) r = Some ([], b) -> wf (ex_g true) None [97; 98] (fun _ _ => None) [] b)
-  /\ match exec true (ex_g true) [] false None [97; 98] (fun _ _ => None) 10 (Ref 0) (fresh 0) with
+  /\ match exec true (ex_g true) [] None [97; 98] (fun _ _ => None) 10 (Ref 0) (fresh 0) with
      | Done s => result s = VList [VStr [98]; VStr [97]] | _ => False end.
 Proof.
   split; [|vm_compute; reflexivity].
   intros [|r] b H; cbn in H; [|destruct r; discriminate]. inversion H; subst. cbn. intuition; discriminate.
 Qed.
 Example C05_unmarked_shadowing_refuted :
-  match exec true (ex_g false) [] false None [97; 98] (fun _ _ => None) 10 (Ref 0) (fresh 0) with
+  match exec true (ex_g false) [] None [97; 98] (fun _ _ => None) 10 (Ref 0) (fresh 0) with
   | Done s => result s = VList [VStr [98]; VStr [98]] | _ => False end.
 Proof. vm_compute. reflexivity. Qed.
